@@ -40,7 +40,11 @@ def sha(s):
 _SHARED_CFG = {}
 
 
-def generate_once(d, cse, as_dict=False):
+STALE = "// output of an earlier, longer build of another filter\n" * 6000  # ~350 kB, longer than anything generated here
+
+
+def generate_once(d, cse, as_dict=False, dirty=False):
+    """dirty: the output paths already hold the (longer) output of an earlier build (storage fault: stale files)"""
     from formak import cpp, python
 
     from fsim import models
@@ -48,9 +52,21 @@ def generate_once(d, cse, as_dict=False):
 
     b = models.build(d)
     fs = FakeFS()
+    if dirty:
+        for p_ in (fs.header, fs.source):
+            with open(p_, "w") as f_:
+                f_.write(STALE)
     argv = sys.argv
     sys.argv = ["generator.py", "--header", fs.header, "--source", fs.source, "--namespace", "ns"]
     cpp.open = fs.open
+    # observation only: the generator object the entry point renders, to render it a second time afterwards
+    seen_gen = []
+    real_impl = getattr(cpp, "_compile_impl", None)
+    if real_impl is not None:
+        def spy_impl(args, *, generator, _real=real_impl):
+            seen_gen.append(generator)
+            return _real(args, generator=generator)
+        cpp._compile_impl = spy_impl
     try:
         with contextlib.redirect_stdout(io.StringIO()):
             if as_dict:
@@ -65,6 +81,15 @@ def generate_once(d, cse, as_dict=False):
     finally:
         sys.argv = argv
         del cpp.open
+        if real_impl is not None:
+            cpp._compile_impl = real_impl
+    rerender = None
+    if seen_gen and hasattr(cpp, "header_from_ast") and hasattr(cpp, "source_from_ast"):
+        try:
+            with contextlib.redirect_stdout(io.StringIO()):
+                rerender = ("\n".join(cpp.header_from_ast(generator=seen_gen[0])), "\n".join(cpp.source_from_ast(generator=seen_gen[0])))
+        except Exception as e:  # noqa: BLE001
+            rerender = (f"rerender raised {type(e).__name__}", "")
     pm = getattr(pe, "_state_model", None)
     if pm is None:
         with contextlib.redirect_stdout(io.StringIO()):
@@ -98,6 +123,7 @@ def generate_once(d, cse, as_dict=False):
     }
     files = fs.files
     fs.close()
+    rerender_equal = True if rerender is None else (rerender[0] == files[fs.header] and rerender[1] == files[fs.source])
     # the Model-only generator path (cpp.compile) is part of the same promise
     fs2 = FakeFS()
     sys.argv = ["generator.py", "--header", fs2.header, "--source", fs2.source, "--namespace", "ns"]
@@ -112,7 +138,7 @@ def generate_once(d, cse, as_dict=False):
     fs2.close()
     files[fs.header] = files[fs.header] + "\n// ---- Model-only header\n" + files2[fs2.header]
     files[fs.source] = files[fs.source] + "\n// ---- Model-only source\n" + files2[fs2.source]
-    return {"header": sha(files[fs.header]), "source": sha(files[fs.source]), "layout": sha(json.dumps(layout, sort_keys=True)),
+    return {"rerender_equal": rerender_equal, "header": sha(files[fs.header]), "source": sha(files[fs.source]), "layout": sha(json.dumps(layout, sort_keys=True)),
             "header_text": files[fs.header] if os.environ.get("FSIM_KEEP_TEXT") else None, "source_text": files[fs.source] if os.environ.get("FSIM_KEEP_TEXT") else None}
 
 
@@ -126,8 +152,10 @@ def main():
             dv = permuted(d, variant)
             try:
                 a = generate_once(dv, job["cse"], job.get("config_as_dict", False))
-                b = generate_once(dv, job["cse"], job.get("config_as_dict", False)) if vi == 0 else a  # state leaking between generations: checked once per model
-                rec = {"model": mi, "variant": vi, "header": a["header"], "source": a["source"], "layout": a["layout"], "twice_equal": (a["header"], a["source"], a["layout"]) == (b["header"], b["source"], b["layout"])}
+                # state leaking between generations, and stale files at the output paths: checked once per model
+                b = generate_once(dv, job["cse"], job.get("config_as_dict", False), dirty=True) if vi == 0 else a
+                rec = {"model": mi, "variant": vi, "header": a["header"], "source": a["source"], "layout": a["layout"], "twice_equal": (a["header"], a["source"], a["layout"]) == (b["header"], b["source"], b["layout"]),
+                       "rerender_equal": a["rerender_equal"] and b["rerender_equal"]}
                 if a["header_text"] is not None:
                     rec["header_text"], rec["source_text"] = a["header_text"], a["source_text"]
             except Exception as e:  # noqa: BLE001
